@@ -87,6 +87,19 @@ def run_unit(unit, defines=None, vacuity=False, rlimit=None, seed=None, tag='mai
     path = os.path.join(BUILD, fname)
     with open(path, 'w') as f:
         f.write(asm['text'])
+    # Result cache: Verus is a function of the assembled text (which contains the text extracted from /repo's current tree) and its flags.
+    # Several property checks share units; an identical file with identical flags is not verified twice. VERIF_NO_CACHE=1 disables it.
+    ckey = hashlib.sha256((asm['text'] + '|%s|%s|%s|%s' % (rlimit, multiple_errors, only_fn, fname)).encode()).hexdigest()
+    cpath = os.path.join(BUILD, 'cache_%s.json' % ckey)
+    if os.environ.get('VERIF_NO_CACHE') != '1' and os.path.exists(cpath):
+        try:
+            cached = json.load(open(cpath))
+            cached['cache_hit'] = True
+            cached['wall_s'] = time.time() - t0
+            return cached
+        except Exception:
+            pass
+    res['cache_key'] = ckey
     res['asm'] = {k: asm[k] for k in ('fns', 'callees', 'rewrites', 'items', 'hashes', 'defines')}
     res['path'] = path
     cmd = [VERUS, fname, '--output-json', '--time-expanded', '--multiple-errors', str(multiple_errors), '--error-format=json']
@@ -242,6 +255,11 @@ def run_unit(unit, defines=None, vacuity=False, rlimit=None, seed=None, tag='mai
         res['tool_errors'].append('verus reports %d errors but none was classified; stderr tail: %s' % (res['errors'], p.stderr[-1500:]))
     res['stderr_tail'] = p.stderr[-4000:]
     res['wall_s'] = time.time() - t0
+    res['verify_wall_s'] = res['wall_s']
+    try:
+        json.dump(res, open(cpath, 'w'))
+    except Exception:
+        pass
     return res
 
 
@@ -268,6 +286,8 @@ def failure_props(f, fninfo_by_key):
 
 
 def obligation_id(f):
+    if f.get('extras_obligation'):
+        return f['extras_obligation']
     fn = (f['fn'] or '?').split('::', 1)[-1]
     if f['clause'] and f['clause'].get('name'):
         return '%s.%s' % (fn, f['clause']['name'])
